@@ -3,6 +3,7 @@ C04 — Entropies and mutual information equal their definitions on every distri
 """
 import itertools
 import math
+import random
 from fractions import Fraction
 
 import core
@@ -12,19 +13,61 @@ from env import import_dit
 
 ORDERS = [0, 0.5, 1, 2, 3.7, 'inf']
 
+# In-place changes of the SAME distribution object that may follow an evaluation; every one of them is followed by a
+# second evaluation of the same quantities, which must equal the definitions on the table as it is then.
+STEP_KINDS = ['setitem', 'pmfidx', 'pmfslice', 'normalize', 'rename']
+STEP_TEXT = {'setitem': 'd[o] = p on every stored outcome', 'pmfidx': 'd.pmf[i] = p for every i',
+             'pmfslice': 'd.pmf[:] = new probabilities', 'normalize': 'd[o] = integer weight on every stored outcome, then d.normalize()',
+             'rename': 'set_rv_names(permuted names)'}
+
+
+def rand_names(rng, n):
+    """Single-character or integer variable names in ARBITRARY order (the order of the names is unrelated to the order
+    of the columns; integer names may be a permutation of the column indices)."""
+    kind = rng.choice(['letters', 'letters', 'ints', 'ints-perm'])
+    if kind == 'letters':
+        return rng.sample(list('ABCXYZabcxyz'), n)
+    if kind == 'ints-perm':
+        p = list(range(n))
+        rng.shuffle(p)
+        return p
+    return rng.sample(range(10), n)
+
+
+def rand_steps(rng, case):
+    kinds = [k for k in STEP_KINDS if k != 'rename' or (case.get('names') and case['n'] > 1)]
+    return [[rng.choice(kinds), rng.randrange(10 ** 6)] for _ in range(rng.choice([1, 1, 2]))]
+
+
+def new_weights(seed, k):
+    """k small non-negative integer weights, at least one positive (derived from the step's seed so that a case stays a
+    plain JSON value whatever the number of stored outcomes turns out to be)."""
+    mrng = random.Random(seed)
+    w = [mrng.choice([0, 1, 1, 2, 3, 4, 7, 12]) for _ in range(k)]
+    if sum(w) == 0:
+        w[mrng.randrange(k)] = 1
+    return w, mrng
+
 
 class C04(object):
     id = 'C04'
     rule = ("scalar and joint linear distributions (with stored / unstored zeros, deterministic, uniform, near-degenerate "
             "1-2^-40) of 1..4 variables; Shannon entropy H(X), conditional entropy H(X|Y), mutual information I(X:Y) for "
-            "random subsets X, Y incl. empty and overlapping ones (all pairs of subsets for n <= 3 in the thorough tier), "
-            "by index or by name; Renyi / Tsallis of orders {0, 1/2, 1, 2, 3.7, inf}, extropy, perplexity, binary-entropy "
-            "form; non-trivial = at least two positive probabilities and a non-empty X")
+            "random subsets X, Y incl. empty and overlapping ones (all pairs of subsets for n <= 3 in the thorough tier, "
+            "for n = 3 also by name under every assignment of three names to the columns), "
+            "by index or by name (names: single letters or integers in ARBITRARY order relative to the columns, incl. "
+            "integer names that permute the column indices; rv_mode explicit or left to the distribution); Renyi / Tsallis "
+            "of orders {0, 1/2, 1, 2, 3.7, inf}, extropy, perplexity, binary-entropy form; about half of the cases continue "
+            "on the SAME object with 1-2 in-place changes (d[o]=p on stored outcomes, d.pmf[i]=p, d.pmf[:]=..., integer "
+            "weights + normalize(), set_rv_names with permuted names), each followed by a second evaluation of the same "
+            "quantities against the definitions on the then-current table; "
+            "non-trivial = at least two positive probabilities and a non-empty X")
     tolerances = {'values': 'atol 1e-9 (Float evaluation of the model definitions vs NumPy)'}
     exhaustive = {'thorough': True}
 
     def gen(self, rng, tier):
         n_cases = 300 if tier == 'quick' else 30000
+        n_named = 80 if tier == 'quick' else 4000
         if tier == 'thorough':
             for n in (1, 2, 3):
                 base = gen.rand_dist_case(rng, nmin=n, nmax=n, bases=['linear'], allow_space=False, allow_names=False)
@@ -34,6 +77,26 @@ class C04(object):
                         c = dict(base)
                         c.update({'what': 'shannon', 'X': X, 'Y': Y, 'byname': False, 'scalar': False})
                         yield c
+                if n == 3:
+                    # the same pairs addressed by name, for every assignment of three names to the three columns
+                    for fam in (['a', 'b', 'c'], [0, 1, 2]):
+                        for perm in itertools.permutations(fam):
+                            for X in subs:
+                                for Y in subs:
+                                    c = dict(base)
+                                    c.update({'what': 'shannon', 'X': X, 'Y': Y, 'byname': True, 'scalar': False,
+                                              'names': list(perm), 'implicit': bool((len(X) + len(Y)) % 2)})
+                                    yield c
+                if n >= 2:
+                    # ... and every pair once more after each kind of in-place change of the same object
+                    for kind in STEP_KINDS:
+                        for X in subs:
+                            for Y in subs:
+                                c = dict(base)
+                                c.update({'what': 'shannon', 'X': X, 'Y': Y, 'byname': kind == 'rename', 'scalar': False,
+                                          'names': (['q', 'p', 'r'][:n] if kind == 'rename' else None),
+                                          'then': [[kind, rng.randrange(10 ** 6)]]})
+                                yield c
         for _ in range(n_cases):
             what = rng.choice(['shannon', 'shannon', 'renyi', 'tsallis', 'other'])
             c = gen.rand_dist_case(rng, nmin=1, nmax=4, bases=['linear'])
@@ -41,7 +104,10 @@ class C04(object):
             c['what'] = what
             c['X'] = sorted(rng.sample(range(n), rng.randint(0, n)))
             c['Y'] = sorted(rng.sample(range(n), rng.randint(0, n)))
+            if c['names'] and rng.random() < 0.6:
+                c['names'] = rand_names(rng, n)
             c['byname'] = bool(c['names']) and rng.random() < 0.5
+            c['implicit'] = rng.random() < 0.3
             c['scalar'] = n == 1 and c['space'] is None and rng.random() < 0.4
             c['order'] = rng.choice(ORDERS)
             c['rvs'] = rng.random() < 0.5
@@ -52,6 +118,25 @@ class C04(object):
                 eps = Fraction(1, 2 ** 20)
                 big = max(range(k), key=lambda i: Fraction(c['pmf'][i]))
                 c['pmf'] = [str(1 - (k - 1) * eps) if i == big else str(eps) for i in range(k)]
+            c['then'] = rand_steps(rng, c) if rng.random() < 0.5 else []
+            yield c
+        # variables addressed by name on three or four columns, names in arbitrary order (any grouping of the columns
+        # into X and Y, in the order the caller happens to list them)
+        for _ in range(n_named):
+            c = gen.rand_dist_case(rng, nmin=3, nmax=4, bases=['linear'])
+            n = c['n']
+            c['what'] = rng.choice(['shannon', 'shannon', 'shannon', 'other'])
+            c['names'] = rand_names(rng, n)
+            c['X'] = rng.sample(range(n), rng.randint(1, n))
+            c['Y'] = rng.sample(range(n), rng.randint(0, n))
+            c['byname'] = True
+            c['implicit'] = rng.random() < 0.3
+            c['scalar'] = False
+            c['order'] = 1
+            c['rvs'] = True
+            if c['what'] != 'shannon':
+                gen.avoid_subnull(c)
+            c['then'] = rand_steps(rng, c) if rng.random() < 0.3 else []
             yield c
 
     def shrink(self, case):
@@ -66,8 +151,13 @@ class C04(object):
                 c['outs'] = [o for j, o in enumerate(outs) if j != i]
                 c['pmf'] = [str(p / tot) for p in rest]
                 yield c
-        for key, val in (('sparse', True), ('trim', True), ('space', None), ('byname', False)):
-            if case.get(key) != val:
+        then = case.get('then') or []
+        for i in range(len(then)):
+            c = dict(case)
+            c['then'] = then[:i] + then[i + 1:]
+            yield c
+        for key, val in (('sparse', True), ('trim', True), ('space', None), ('byname', False), ('implicit', False)):
+            if case.get(key, val) != val:
                 c = dict(case)
                 c[key] = val
                 yield c
@@ -85,64 +175,86 @@ class C04(object):
             r.site = 'dit.multivariate/dit.shannon(names)'
         klass = case['klass']
         n = case['n']
-        names = case.get('names')
+        names = list(case.get('names') or []) or None
         X, Y = case['X'], case['Y']
+        scalar = bool(case.get('scalar'))
+        steps = [list(s) for s in (case.get('then') or [])]
+        if names is None:
+            order = 'none'
+        else:
+            order = 'columns' if sorted(names) == names else 'other'
         r.features = ['what=%s' % what, 'n=%d' % n, 'byname=%s' % case['byname'], 'scalar=%s' % case.get('scalar'),
                       'sparse=%s' % case['sparse'], 'trim=%s' % case['trim'],
                       'zeros=%s' % any(Fraction(p) == 0 for p in case['pmf']), 'emptyX=%s' % (not X),
-                      'overlap=%s' % bool(set(X) & set(Y))]
-        if case.get('scalar'):
+                      'overlap=%s' % bool(set(X) & set(Y)),
+                      'name-order=%s' % order,
+                      'name-type=%s' % ('none' if names is None else type(names[0]).__name__),
+                      'vars-in-XuY=%d' % len(set(X) | set(Y)),
+                      'steps=%d' % len(steps)] + ['step=%s' % k for k, _ in steps]
+        if scalar:
             u = gen.UNIVERSE[klass]
             d = dit.ScalarDistribution([u[o[0]] for o in case['outs']], [float(Fraction(p)) for p in case['pmf']],
                                        sparse=case['sparse'], trim=case['trim'])
         else:
             d = gen.build(case)
-        rows = [(gen.from_py(o, klass) if not case.get('scalar') else [gen.UNIVERSE[klass].index(o)], float(v))
-                for o, v in zip(d.outcomes, d.pmf)]
-        ftab = [[o, f2bits(v)] for o, v in rows]
-        r.nontrivial = sum(1 for _, v in rows if v > 0) >= 2 and (what != 'shannon' or bool(X))
-        rv_mode = 'names' if case['byname'] else 'indices'
+        # how the variables are addressed: by column index, or by the name the column has at that moment
+        byname = bool(case['byname']) and names is not None
+        if case.get('implicit') and (byname or names is None):
+            rv_mode = None        # left to the distribution: names when it has names, indices otherwise
+            r.features.append('rv_mode=implicit')
+        else:
+            rv_mode = 'names' if byname else 'indices'
+        state = {'names': names}
+
+        def table():
+            return [(gen.from_py(o, klass) if not scalar else [gen.UNIVERSE[klass].index(o)], float(v))
+                    for o, v in zip(d.outcomes, d.pmf)]
 
         def nm(idx):
-            return [names[i] for i in idx] if case['byname'] else list(idx)
+            return [state['names'][i] for i in idx] if byname else list(idx)
 
-        def Href(S):
-            m = {}
-            for o, p in rows:
-                key = tuple(o[i] for i in S)
-                m[key] = m.get(key, 0.0) + p
-            return -sum(p * math.log2(p) for p in m.values() if p > 0)
+        def evaluate(rows):
+            """(label, impl value, model value, reference value) for the case's quantities on the table `rows` (the
+            references are the definitions evaluated on `rows`, by column index)."""
+            ftab = [[o, f2bits(v)] for o, v in rows]
 
-        checks = []   # (label, impl value, model value, reference value)
-        try:
+            def Href(S):
+                m = {}
+                for o, p in rows:
+                    key = tuple(o[i] for i in sorted(set(S)))
+                    m[key] = m.get(key, 0.0) + p
+                return -sum(p * math.log2(p) for p in m.values() if p > 0)
+
+            checks = []
             if what == 'shannon':
-                if case.get('scalar'):
+                if scalar:
                     v = float(H1(d))
                     mv = bits2f(drv.call('entf', ['entropy', None, [f2bits(p) for _, p in rows]]))
                     checks.append(('entropy(scalar)', v, mv, Href([0])))
                 else:
+                    sX, sY = sorted(X), sorted(Y)
                     hx = float(H1(d, nm(X), rv_mode=rv_mode))
-                    checks.append(('H(X)', hx, bits2f(drv.call('combf', ['entropy', 0, [X], [], ftab])), Href(X)))
+                    checks.append(('H(X)', hx, bits2f(drv.call('combf', ['entropy', 0, [sX], [], ftab])), Href(X)))
                     hxy = float(conditional_entropy(d, nm(X), nm(Y), rv_mode=rv_mode))
                     ref = Href(sorted(set(X) | set(Y))) - Href(Y)
-                    checks.append(('H(X|Y)', hxy, bits2f(drv.call('combf', ['entropy', 0, [X], Y, ftab])), ref))
+                    checks.append(('H(X|Y)', hxy, bits2f(drv.call('combf', ['entropy', 0, [sX], sY, ftab])), ref))
                     mi = float(mutual_information(d, nm(X), nm(Y), rv_mode=rv_mode))
                     refmi = Href(X) + Href(Y) - Href(sorted(set(X) | set(Y)))
-                    checks.append(('I(X:Y)', mi, bits2f(drv.call('combf', ['cmi', 0, [X, Y], [], ftab])), refmi))
+                    checks.append(('I(X:Y)', mi, bits2f(drv.call('combf', ['cmi', 0, [sX, sY], [], ftab])), refmi))
                     if X and not (set(X) & set(Y)):
                         hm = float(Hm(d, [nm(X)], nm(Y), rv_mode=rv_mode))
-                        checks.append(('multivariate.entropy', hm, bits2f(drv.call('combf', ['entropy', 0, [X], Y, ftab])), ref))
+                        checks.append(('multivariate.entropy', hm, bits2f(drv.call('combf', ['entropy', 0, [sX], sY, ftab])), ref))
             else:
-                rvs = nm(X) if (case.get('rvs') and X and not case.get('scalar')) else None
-                S = X if rvs is not None else list(range(n))
-                mj = unfl(drv.call('margf', [ftab, S])) if not case.get('scalar') else [p for _, p in rows]
+                rvs = nm(X) if (case.get('rvs') and X and not scalar) else None
+                S = sorted(X) if rvs is not None else list(range(n))
+                mj = unfl(drv.call('margf', [ftab, S])) if not scalar else [p for _, p in rows]
                 ps = [p for p in mj]
                 pos = [p for p in ps if p > 0]
                 kw = dict(rvs=rvs, rv_mode=rv_mode) if rvs is not None else {}
                 if what == 'renyi':
                     a = case['order']
-                    order = float('inf') if a == 'inf' else a
-                    v = float(renyi_entropy(d, order, **kw))
+                    order_ = float('inf') if a == 'inf' else a
+                    v = float(renyi_entropy(d, order_, **kw))
                     mv = bits2f(drv.call('entf', ['renyi', 'inf' if a == 'inf' else f2bits(float(a)), [f2bits(p) for p in ps]]))
                     if a == 0:
                         ref = math.log2(len(pos))
@@ -163,39 +275,115 @@ class C04(object):
                     checks.append(('tsallis(%s)' % a, v, mv, ref))
                 else:
                     v = float(extropy(d, **kw))
-                    mv = bits2f(drv.call('entf', ['extropy', None, [f2bits(p) for p in ps]]))
+                    # a marginal probability that float summation leaves a few ulp above one (e.g. 2/29+2/29+20/29+3/29+2/29)
+                    # is one: the model's Float evaluation of (1-p) log2 (1-p) is NaN there (the real-number
+                    # definition has p <= 1); the reference below and dit both give that term the value 0
+                    pe = [1.0 if 1.0 < p <= 1.0 + 1e-15 else p for p in ps]
+                    mv = bits2f(drv.call('entf', ['extropy', None, [f2bits(p) for p in pe]]))
                     ref = -sum((1 - p) * math.log2(1 - p) for p in ps if p < 1)
                     checks.append(('extropy', v, mv, ref))
                     v2 = float(perplexity(d, **({'rvs': rvs, 'rv_mode': rv_mode} if rvs is not None else {})))
                     mv2 = bits2f(drv.call('entf', ['perplexity', None, [f2bits(p) for p in ps]]))
                     checks.append(('perplexity', v2, mv2, 2 ** (-sum(p * math.log2(p) for p in pos))))
+                    if rvs is not None and Y and not (set(X) & set(Y)):
+                        # conditional form: 2 ** H(X|Y), from the joint table
+                        v3 = float(perplexity(d, rvs, nm(Y), rv_mode=rv_mode))
+                        h = Href(sorted(set(X) | set(Y))) - Href(Y)
+                        mh = bits2f(drv.call('combf', ['entropy', 0, [sorted(X)], sorted(Y), ftab]))
+                        checks.append(('perplexity(X|Y)', v3, 2 ** mh, 2 ** h))
                     if len(ps) == 2:
                         checks.append(('binary entropy', float(H1(ps[0])), mv2 and math.log2(mv2), -sum(p * math.log2(p) for p in pos)))
-        except Exception as e:  # noqa
-            r.oracle_fail = '%s raised %s: %s' % (what, type(e).__name__, str(e)[:150])
-            return r
-        for label, v, mv, ref in checks:
-            if not math.isfinite(v):
-                r.oracle_fail = '%s is not finite: %r' % (label, v)
-            elif abs(v - ref) > 1e-9 * max(1.0, abs(ref)):
-                r.oracle_fail = '%s = %r but the definition gives %r' % (label, v, ref)
-            if not r.mismatch and not (abs(v - mv) <= 1e-9 * max(1.0, abs(mv))):
-                r.mismatch = '%s: impl %r model %r' % (label, v, mv)
+            return checks, Href
+
+        def apply_step(kind, seed):
+            """One in-place change of `d` (the object the quantities were just computed on)."""
+            if kind == 'rename' and (scalar or state['names'] is None or n < 2):
+                kind = 'setitem'
+            if kind == 'rename':
+                mrng = random.Random(seed)
+                cur = list(state['names'])
+                new = list(cur)
+                for _ in range(8):
+                    mrng.shuffle(new)
+                    if new != cur:
+                        break
+                d.set_rv_names(new)
+                state['names'] = new
+                return kind
+            stored = list(d.outcomes)
+            k = len(stored)
+            w, mrng = new_weights(seed, k)
+            tot = sum(w)
+            probs = [float(Fraction(x, tot)) for x in w]
+            if kind == 'setitem':
+                for o, p in zip(stored, probs):
+                    d[o] = p
+            elif kind == 'pmfidx':
+                idx = list(range(k))
+                mrng.shuffle(idx)
+                for i in idx:
+                    d.pmf[i] = probs[i]
+            elif kind == 'pmfslice':
+                d.pmf[:] = probs
+            elif kind == 'normalize':
+                for o, x in zip(stored, w):
+                    d[o] = float(x)
+                d.normalize()
+            else:
+                raise ValueError(kind)
+            return kind
+
+        all_checks = []
+        base_site = r.site
+        stage = ''
+        for si in range(len(steps) + 1):
+            if si > 0:
+                kind, seed = steps[si - 1]
+                try:
+                    kind = apply_step(kind, seed)
+                except Exception as e:  # noqa
+                    r.oracle_fail = 'in-place change (%s) raised %s: %s' % (STEP_TEXT.get(kind, kind), type(e).__name__, str(e)[:150])
+                    return r
+                stage = ' [same object, after %s]' % '; then '.join(STEP_TEXT[k] if not (k == 'rename' and (scalar or names is None or n < 2)) else STEP_TEXT['setitem']
+                                                                    for k, _ in steps[:si])
+                if not r.mismatch:
+                    r.site = base_site + '(after in-place change)'
+            rows = table()
+            if si == 0:
+                r.nontrivial = sum(1 for _, v in rows if v > 0) >= 2 and (what != 'shannon' or bool(X))
+            try:
+                checks, Href = evaluate(rows)
+            except Exception as e:  # noqa
+                r.oracle_fail = '%s raised %s: %s%s' % (what, type(e).__name__, str(e)[:150], stage)
+                return r
+            for label, v, mv, ref in checks:
+                if not math.isfinite(v):
+                    r.oracle_fail = '%s is not finite: %r%s' % (label, v, stage)
+                elif abs(v - ref) > 1e-9 * max(1.0, abs(ref)):
+                    r.oracle_fail = '%s = %r but the definition gives %r%s' % (label, v, ref, stage)
+                if not r.mismatch and not (abs(v - mv) <= 1e-9 * max(1.0, abs(mv))):
+                    r.mismatch = '%s: impl %r model %r%s' % (label, v, mv, stage)
+                if r.oracle_fail:
+                    break
+            all_checks.append([(l + stage, v, mv, ref) for l, v, mv, ref in checks])
+            r.detail = {'checks': all_checks[0], 'names': state['names']}
+            if len(all_checks) > 1:
+                r.detail['checks_after_changes'] = all_checks[1:]
             if r.oracle_fail:
-                break
-        r.detail = {'checks': [(l, v, mv, ref) for l, v, mv, ref in checks]}
-        # the calls above are queries: the stored table is what it was, and asking again gives the same answers
-        if not r.oracle_fail:
+                return r
+            # the calls above are queries: the stored table is what it was, and asking again gives the same answers
             after = [float(v) for v in d.pmf]
             if after != [p for _, p in rows]:
-                r.oracle_fail = '%s changed the stored pmf of its argument: %s -> %s' % (what, [p for _, p in rows][:6], after[:6])
-            else:
-                try:
-                    again = float(H1(d)) if case.get('scalar') else float(H1(d, nm(list(range(n))), rv_mode=rv_mode))
-                    if abs(again - Href(list(range(n)))) > 1e-9:
-                        r.oracle_fail = 'entropy of the whole distribution after the calls is %r, the definition gives %r' % (again, Href(list(range(n))))
-                except Exception as e:  # noqa
-                    r.oracle_fail = 'entropy after the calls raised %s' % type(e).__name__
+                r.oracle_fail = '%s changed the stored pmf of its argument: %s -> %s%s' % (what, [p for _, p in rows][:6], after[:6], stage)
+                return r
+            try:
+                again = float(H1(d)) if scalar else float(H1(d, nm(list(range(n))), rv_mode=rv_mode))
+                if abs(again - Href(list(range(n)))) > 1e-9:
+                    r.oracle_fail = 'entropy of the whole distribution after the calls is %r, the definition gives %r%s' % (again, Href(list(range(n))), stage)
+                    return r
+            except Exception as e:  # noqa
+                r.oracle_fail = 'entropy after the calls raised %s%s' % (type(e).__name__, stage)
+                return r
         return r
 
 
